@@ -80,6 +80,102 @@ def gen_cases(rng, n):
     return out[:n]
 
 
+BUILDERS = ("Authentication", "LightWeight", "Permissions", "CanAuthenticate")
+
+
+def scan_declarations(repo):
+    """Builder-call chains of every route declaration `X.New(...).A(..).B(..)` in the non-test Go sources under internal/
+    (syntactic: balanced parentheses, comments skipped). Returns [(file, line, [(name, argtext)])]."""
+    import re
+    out = []
+    for root, _, files in os.walk(os.path.join(repo, "internal")):
+        for fn in files:
+            if not fn.endswith(".go") or fn.endswith("_test.go"):
+                continue
+            path = os.path.join(root, fn)
+            src = open(path, errors="replace").read()
+            if ".New(" not in src or not any(b + "(" in src for b in BUILDERS):
+                continue
+            for m in re.finditer(r"\.New\(", src):
+                i = close_paren(src, m.end() - 1)
+                chain = []
+                while i is not None:
+                    j = skip_ws(src, i)
+                    mm = re.match(r"\.\s*([A-Za-z_]\w*)\s*\(", src[j:])
+                    if not mm:
+                        break
+                    k = close_paren(src, j + mm.end() - 1)
+                    if k is None:
+                        break
+                    chain.append((mm.group(1), src[j + mm.end():k - 1].strip()))
+                    i = k
+                if any(n in BUILDERS for n, _ in chain):
+                    out.append((os.path.relpath(path, repo), src.count("\n", 0, m.start()) + 1, chain))
+    return out
+
+
+def close_paren(src, i):
+    """i = index of '(' ; returns index just after the matching ')' (strings and comments skipped)"""
+    depth, n = 0, len(src)
+    while i < n:
+        c = src[i]
+        if c in "\"`":
+            j = i + 1
+            while j < n and src[j] != c:
+                j += 2 if (c == '"' and src[j] == "\\") else 1
+            i = j + 1
+            continue
+        if src.startswith("//", i):
+            i = src.find("\n", i)
+            if i < 0:
+                return None
+            continue
+        if c == "(":
+            depth += 1
+        elif c == ")":
+            depth -= 1
+            if depth == 0:
+                return i + 1
+        i += 1
+    return None
+
+
+def skip_ws(src, i):
+    n = len(src)
+    while i < n:
+        if src[i].isspace():
+            i += 1
+        elif src.startswith("//", i):
+            j = src.find("\n", i)
+            i = n if j < 0 else j
+        else:
+            break
+    return i
+
+
+def chain_variants(chain):
+    """builder calls of a declaration as harness calls; a non-literal boolean argument yields both readings"""
+    variants = [[]]
+    for name, arg in chain:
+        if name not in BUILDERS:
+            continue
+        if name == "Permissions":
+            n = 0 if arg == "" else len([a for a in arg.split(",") if a.strip()])
+            opts = [["Permissions", ["p1", "p2", "p3"][:max(0, min(n, 3))]]]
+        elif arg in ("true", "false"):
+            opts = [[name, arg == "true"]]
+        else:
+            opts = [[name, True], [name, False]]
+        variants = [v + [o] for v in variants for o in opts]
+    return variants[:8]
+
+
+def unsafe_chain(calls):
+    req = [i for i, c in enumerate(calls) if c[0] == "Permissions" or (c[0] == "Authentication" and c[1])]
+    wd = [i for i, c in enumerate(calls) if (c[0] == "LightWeight" and c[1]) or (c[0] == "Authentication" and not c[1])]
+    return bool(req and wd)
+
+
 def ccall(c):
     if c[0] == "Permissions":
         return "Permissions [%s]%%N" % ";".join(str(PERM_ID[p]) for p in c[1])
@@ -120,7 +216,19 @@ def run(ck):
         rp = json.load(open(ck.replay_file))["replay"]
         cases = [(rp["calls"], rp["cred"])] if "calls" in rp else CORPUS
     else:
-        cases = CORPUS + gen_cases(ck.rng, 700 if quick else 6000)
+        cases = CORPUS + gen_cases(ck.rng, 420 if quick else 6000)
+    # real declarations (source scan): every chain that mixes a requirement with a withdrawing call is also driven
+    decls = [] if ck.replay_file else scan_declarations(vf.REPO)
+    decl_cases = {}
+    for fn, line, chain in decls:
+        for v in chain_variants(chain):
+            if unsafe_chain(v):
+                decl_cases[len(cases)] = (fn, line)
+                cases.append((v, "none"))
+    if not ck.replay_file and len(decls) < 20:
+        ck.violation("declaration-scan", "only %d route declarations with builder calls were found in the sources (anchors lost?)" % len(decls),
+                     replay={"found": len(decls)}, found_input=False)
+    ck.cov["real_declarations_scanned"] = len(decls)
     env = vf.ego_env(ck.work)
     inp, outp = os.path.join(ck.work, "gin.json"), os.path.join(ck.work, "gout.json")
     json.dump({"cases": [{"calls": c, "cred": f} for c, f in cases]}, open(inp, "w"))
@@ -137,6 +245,12 @@ def run(ck):
 
     # ---------------------------------------------------------------- property oracle on the real outputs
     nontriv, hist = set(), {}
+    for idx, (fn, line) in decl_cases.items():
+        calls, r = cases[idx][0], res[idx]
+        ck.violation("real-declaration:%s" % fn, "the route declared at %s:%d mixes a requirement with a call that withdraws it (%r): resulting flags "
+                     "must=%s light=%s perms=%r; a request without credentials %s its handler" % (
+                         fn, line, calls, r["must"], r["light"], r["perms"], "REACHES" if r["invoked"] else "does not reach"),
+                     replay={"calls": calls, "cred": "none", "real": r, "declaration": "%s:%d" % (fn, line)}, found_input=r["invoked"])
     for (calls, form), r in zip(cases, res):
         l, a, ad, user = CREDS[form]
         uperms = set(users.get(user, [])) if user else set()
